@@ -21,3 +21,12 @@ prop(
     "contract-based deductive verification: sidecar contracts + round-trip lemmas over the real source, z3 (LIA/LRA/strings as structured segments) + exhaustive native enumeration of the finite float domain",
     "DESIGN.md section 7 C01",
 )
+
+prop(
+    "C16", "other",
+    "Contracts state every public list operation as the same operation on the plain row sequence rows(L). The real method bodies are executed symbolically over a static-shape frame model (0..3 rows; every cell and every distinct row label symbolic) and the VCs discharged by z3: a proof for all values and labels at those shapes (shape-bounded, not counted as an unbounded proof). The same contracts are checked at run time on every list class of every game over operation sequences (bounded).",
+    "A2 pandas model (pyvc/frames.py, conformance-tested), A1, A3. Row counts beyond 3 only by the native bounded side.",
+    "contract-based deductive verification over a shape-bounded symbolic frame model (z3) + run-time contract checking on all list classes",
+    "DESIGN.md section 7 C16", uses_frames=True,
+    explanation="shape-bounded deductive verification: obligations are discharged by z3 for all cell values and row labels at 0..3 rows; larger row counts and all list classes are covered by the bounded native side only",
+)
